@@ -12,7 +12,7 @@ Ties between RTV.Model.Conc / RTV.Model.Factory (Lean driver) and the working tr
   pipeline  a pool of (recognize_* function, query, culture, options, reference) tuples (Specs inputs + fraction
             witnesses) evaluated (a) sequentially cold in a fresh process = the canonical answers, (a') a sample as
             true single calls in their own processes, (b) warm twice in the checking process, (c) in seeded
-            permutations, cold (fresh process) and warm, (d) on 1..16 threads sharing a cold cache (fresh processes),
+            permutations, cold (fresh process) and warm, (d) on 1..16 threads sharing the cache, cold (fresh processes) and warm,
             (e) on a fresh thread — every answer must be the canonical JSON of (a)."""
 import decimal
 import json
@@ -35,8 +35,8 @@ REQUIRED_THEOREMS = ['cache_transparent', 'recognition_pure_same_prec', 'recogni
                      'recognition_depends_on_thread_precision']
 RULE = ('pool: seeded sample of the Specs model inputs (number / ordinal / percentage all cultures, age / currency / '
         'dimension / temperature, phone / ip / url / email / guid / mention / hashtag, boolean, ~150 date-time with '
-        'their reference dates, date-time options 0 and 2) + fraction witnesses; disciplines a, a\', b, c, d (1,2,4,16 '
-        'threads quick; 1,2,3,4,8,16 thorough), e; controlled interleavings: seeded schedules of 2-4 threads x 1-3 '
+        'their reference dates, date-time options 0 and 2) + fraction witnesses; disciplines a, a\', b, c, d (cold 3,16 / '
+        'warm 1,2,4,8 threads quick; cold 2,5,16 / warm 1,3,4,8 thorough; on a seeded subset containing the witnesses), e; controlled interleavings: seeded schedules of 2-4 threads x 1-3 '
         'requests over a small key space of cheap models, every schedule run to completion; '
         'non-trivial = distinct pool tuple with at least one entity / distinct schedule with a cache miss race')
 ASSUMPTIONS = ['dict.get / dict.__setitem__ on the shared cache are atomic (GIL) and everything between them is '
@@ -95,7 +95,7 @@ def build_pool(ctx):
     pool = []
     for fn in sorted(by_fn):
         items = sorted(by_fn[fn], key=lambda t: (t[2], t[1], t[4] or ''))
-        k = QUOTA_QUICK[fn] * (4 if ctx.thorough else 1)
+        k = QUOTA_QUICK[fn] * (2 if ctx.thorough else 1)
         pool += r.sample(items, min(k, len(items)))
     # date-time with another option value (another cache key, another model object)
     dts = [t for t in pool if t[0] == 'recognize_datetime' and t[2] == 'en-us']
@@ -337,22 +337,22 @@ def correspond(ctx):
     r = ctx.rng('perm')
     perm = list(range(n))
     r.shuffle(perm)
-    cold_threads = [2, 3, 16] if ctx.thorough else [3, 16]
-    warm_threads = [1, 4, 8] if ctx.thorough else [1, 2, 4, 8]
+    cold_threads = [2, 5, 16] if ctx.thorough else [3, 16]
+    warm_threads = [1, 3, 4, 8] if ctx.thorough else [1, 2, 4, 8]
     single_idx = r.sample(range(n), 48 if ctx.thorough else 16)
     jobs = {'a_seq_cold': {'pool': pool, 'mode': 'seq'},
             'c_perm_cold': {'pool': pool, 'mode': 'seq', 'order': perm},
             'e_fresh_thread_cold': {'pool': pool, 'mode': 'fresh_thread'}}
     # threaded evaluation costs about three times the sequential one (GIL hand-over): the thread disciplines run
     # on a seeded subset that always contains the fraction witnesses and every function
-    nsub = 1500 if ctx.thorough else 400
+    nsub = 700 if ctx.thorough else 400
     frac = [i for i in range(n) if (pool[i][0], pool[i][1], pool[i][2]) in set(FRACTIONS)]
     rest = [i for i in range(n) if i not in set(frac)]
     sub = sorted(frac + r.sample(rest, min(nsub, len(rest))))
     subpool = [pool[i] for i in sub]
     for k in cold_threads:
         jobs['d_threads_%d_cold' % k] = {'pool': subpool, 'mode': 'threads', 'threads': k, 'seed': seed * 100 + k,
-                                         'copies': 2 if ctx.thorough else 1}
+                                         'copies': 1}
     for i in single_idx:
         jobs['a1_single_%d' % i] = {'pool': [pool[i]], 'mode': 'seq'}
     results = {}
